@@ -21,6 +21,10 @@ type Collection struct {
 
 	mu   sync.RWMutex // protects byId and rng from concurrent access
 	byId map[string]*item
+	// pubMu is held from just before a write is committed until its change has been sent on the bus,
+	// so that changes are published in the order they were committed.
+	// Lock order: pubMu before mu.
+	pubMu sync.Mutex
 	// "change" events contain a *CollectionChange instance
 	bus minibus.Bus
 }
@@ -105,6 +109,7 @@ func (c *Collection) Update(id string, msg proto.Message, opts ...WriteOption) (
 	}
 
 	var created proto.Message // during create, this is returned by GetFn so concurrent reference checks pass
+	var publishing bool
 	oldValue, newValue, err := GetAndUpdate(
 		&c.mu,
 		func() (item proto.Message, err error) {
@@ -143,10 +148,13 @@ func (c *Collection) Update(id string, msg proto.Message, opts ...WriteOption) (
 			}
 			return created, nil
 		},
-		writeRequest.changeFn(writer, msg),
+		publishInOrder(&c.pubMu, &publishing, writeRequest.changeFn(writer, msg)),
 		func(msg proto.Message) {
 			c.byId[id] = &item{body: msg, changeTime: writeRequest.updateTime(c.clock)}
 		})
+	if publishing {
+		defer c.pubMu.Unlock()
+	}
 
 	if err != nil {
 		if s, ok := status.FromError(err); ok {
@@ -204,6 +212,7 @@ func (c *Collection) Delete(id string, opts ...WriteOption) (proto.Message, erro
 		}
 
 		verifAt("del.checked", &c.mu)
+		c.pubMu.Lock()
 		c.mu.Lock()
 		verifAt("del.locked", &c.mu)
 		oldVal2, exists2 := c.byId[id]
@@ -211,6 +220,7 @@ func (c *Collection) Delete(id string, opts ...WriteOption) (proto.Message, erro
 			// someone changed something while we were checking the value, try again
 			verifAt("del.retry", &c.mu)
 			c.mu.Unlock()
+			c.pubMu.Unlock()
 			oldVal, exists = oldVal2, exists2
 			continue
 		}
@@ -225,6 +235,7 @@ func (c *Collection) Delete(id string, opts ...WriteOption) (proto.Message, erro
 			OldValue:   oldVal.body,
 		})
 		c.mu.Unlock()
+		c.pubMu.Unlock()
 		return oldVal.body, nil
 	}
 
